@@ -128,6 +128,7 @@ type C03Case struct {
 	FailData bool   `json:"fail_data,omitempty"`
 	Transient bool  `json:"transient,omitempty"` // the reader fails once and then goes on delivering
 	EOFData  bool   `json:"eof_data,omitempty"`  // the reader returns its last bytes together with io.EOF
+	Second   bool   `json:"second,omitempty"`    // a second, well-formed input file follows this one
 	Prog     int    `json:"prog"`
 	Barrier  bool   `json:"barrier"` // check incrementality with barriers
 	What     string `json:"what"`
@@ -221,10 +222,17 @@ func c03Check(c *C03Case) string {
 		}
 		return begin + strings.Join(units[:n], "")
 	}
+	second := c.Second && c03Keeps[c.Prog] == ""
+	unitG := ""
+	if second {
+		// the second file's own contribution, with its own name
+		og := run.InProc(p.src, []run.InFile{{Name: "g", Data: []byte(c03SecondFile)}}, p.sels, run.Opts{Budget: implBudget})
+		unitG = strings.TrimSuffix(strings.TrimPrefix(string(og.Stdout), begin), end)
+	}
 	mk := func(n int) string {
 		s := upTo(n)
 		if !expectErr {
-			s += end
+			s += unitG + end
 		}
 		return s
 	}
@@ -253,7 +261,7 @@ func c03Check(c *C03Case) string {
 			}
 		}
 	}
-	o := runWithReader(p, rd, &out)
+	o := runWithReader(p, rd, &out, second)
 	if o.Class == "panic" {
 		return "panic: " + o.Panic
 	}
@@ -276,7 +284,7 @@ func c03Check(c *C03Case) string {
 			}
 			rd2 := &ownedReader{data: data, chunks: other, failAt: rd.failAt, failData: c.FailData, transient: c.Transient, eofData: c.EOFData}
 			var out2 bytes.Buffer
-			o2 := runWithReader(p, rd2, &out2)
+			o2 := runWithReader(p, rd2, &out2, second)
 			if o2.Class != o.Class || o2.Msg != o.Msg || o2.FileName != o.FileName {
 				return fmt.Sprintf("%s: the reported error depends on how the bytes are split across reads\n chunks %v: %s %q\n chunks %v: %s %q", c.What, c.Chunks, o.Class, o.Msg, other, o2.Class, o2.Msg)
 			}
@@ -293,8 +301,14 @@ func c03Check(c *C03Case) string {
 	return ""
 }
 
-func runWithReader(p c03Prog, rd io.Reader, out *bytes.Buffer) run.Outcome {
-	o := run.InProcW(p.src, []run.InFile{{Name: "f", Reader: rd}}, p.sels, run.Opts{Budget: implBudget}, out)
+const c03SecondFile = "[\"second\"]\n"
+
+func runWithReader(p c03Prog, rd io.Reader, out *bytes.Buffer, second ...bool) run.Outcome {
+	files := []run.InFile{{Name: "f", Reader: rd}}
+	if len(second) > 0 && second[0] {
+		files = append(files, run.InFile{Name: "g", Data: []byte(c03SecondFile)})
+	}
+	o := run.InProcW(p.src, files, p.sels, run.Opts{Budget: implBudget}, out)
 	return o
 }
 
@@ -511,7 +525,7 @@ func TestC03(t *testing.T) {
 		try := func(c *C03Case, labels ...string) {
 			msg := c03Check(c)
 			nt := nvals >= 2
-			rec.Case(fmt.Sprintf("%q|%v|%d|%v|%v|%v|%d|%v", string(c.Data), c.Chunks, c.FailAt, c.FailData, c.Transient, c.EOFData, c.Prog, c.Barrier), nt, labels...)
+			rec.Case(fmt.Sprintf("%q|%v|%d|%v|%v|%v|%v|%d|%v", string(c.Data), c.Chunks, c.FailAt, c.FailData, c.Transient, c.EOFData, c.Second, c.Prog, c.Barrier), nt, labels...)
 			rec.Sample(func() interface{} {
 				return map[string]interface{}{"bytes": string(c.Data), "chunks": c.Chunks, "fail_at": c.FailAt, "what": c.What, "program": c03Programs[c.Prog].src}
 			})
@@ -524,6 +538,12 @@ func TestC03(t *testing.T) {
 		try(&C03Case{Data: ast.BS(stream), Chunks: chunks, FailAt: -1, Prog: prog, Barrier: true, What: "well-formed stream, barriers"}, "no-fault", "barriers")
 		try(&C03Case{Data: ast.BS(stream), Chunks: []int{1}, FailAt: -1, Prog: prog, What: "well-formed stream, 1-byte reads"}, "no-fault", "one-byte-reads")
 		try(&C03Case{Data: ast.BS(stream), Chunks: nil, FailAt: -1, Prog: prog, What: "well-formed stream, one read"}, "no-fault", "one-read")
+		try(&C03Case{Data: ast.BS(stream), Chunks: chunks, FailAt: -1, Second: true, Prog: prog, What: "well-formed stream followed by a second input file"}, "no-fault", "second-input-file")
+		if len(stream) > 0 {
+			k := rapid.IntRange(0, len(stream)).Draw(rt, "secondfail")
+			try(&C03Case{Data: ast.BS(stream), Chunks: chunks, FailAt: k, Second: true, Prog: prog, What: fmt.Sprintf("read error at byte %d of the first of two input files", k)}, "read-error", "second-input-file")
+			try(&C03Case{Data: ast.BS(stream[:k]), Chunks: chunks, FailAt: -1, Second: true, Prog: prog, What: fmt.Sprintf("the first of two input files truncated at byte %d", k)}, "truncation", "second-input-file")
+		}
 		try(&C03Case{Data: ast.BS(stream), Chunks: nil, FailAt: -1, EOFData: true, Prog: prog, What: "well-formed stream, one read that also reports end of input"}, "no-fault", "last-bytes-with-eof")
 		try(&C03Case{Data: ast.BS(stream), Chunks: chunks, FailAt: -1, EOFData: true, Prog: prog, Barrier: true, What: "well-formed stream, the last read also reports end of input"}, "no-fault", "last-bytes-with-eof")
 		if len(stream) <= maxEnum {
@@ -561,6 +581,7 @@ func TestC03(t *testing.T) {
 				mod := stream[:v.end] + ch + stream[v.end:]
 				try(&C03Case{Data: ast.BS(mod), Chunks: chunks, FailAt: -1, Prog: prog, What: fmt.Sprintf("stray %q after the value ending at byte %d", ch, v.end)}, "stray-between-values")
 				try(&C03Case{Data: ast.BS(mod), Chunks: nil, FailAt: -1, EOFData: true, Prog: prog, What: fmt.Sprintf("stray %q after the value ending at byte %d, one read that also reports end of input", ch, v.end)}, "stray-between-values", "last-bytes-with-eof")
+				try(&C03Case{Data: ast.BS(mod), Chunks: chunks, FailAt: -1, Second: true, Prog: prog, What: fmt.Sprintf("stray %q after the value ending at byte %d, in the first of two input files", ch, v.end)}, "stray-between-values", "second-input-file")
 				try(&C03Case{Data: ast.BS(mod), Chunks: chunks, FailAt: -1, EOFData: true, Prog: prog, What: fmt.Sprintf("stray %q after the value ending at byte %d, the last read also reports end of input", ch, v.end)}, "stray-between-values", "last-bytes-with-eof")
 			}
 		}
